@@ -161,6 +161,7 @@ class PkgConfigInfo:
                  options=None, link_options=None, link_options_private=None,
                  lang=None, auto_fill=False):
         self._builtins = context.builtins
+        self._installed = context.build['install'].host
         self.auto_fill = auto_fill
 
         self.name = name
@@ -210,13 +211,17 @@ class PkgConfigInfo:
     def _header(self, header):
         if not isinstance(header, HeaderFile):
             header = self._builtins['header_directory'](header)
-        self._builtins['install'](header)
+        # Don't try to move something the user already installed (possibly
+        # into a directory of their choosing).
+        if header not in self._installed:
+            self._builtins['install'](header)
         return header
 
     def _library(self, lib):
         if not isinstance(lib, DualUseLibrary):
             lib = self._builtins['library'](lib)
-        self._builtins['install'](lib)
+        if any(i not in self._installed for i in lib.all):
+            self._builtins['install'](lib)
         return lib
 
     def _set_requires(self, value):
